@@ -10,6 +10,7 @@ mod gs;
 mod json;
 mod rng;
 mod settings;
+mod strains;
 mod sv;
 
 fn arg<T: std::str::FromStr>(args: &[String], i: usize, default: T) -> T {
@@ -23,6 +24,7 @@ fn main() {
         "sv" => sv::main(arg(&args, 2, 0), arg(&args, 3, 100)),
         "gs_exh" => gs::main_exh(arg(&args, 2, 0), arg(&args, 3, 1), arg(&args, 4, 0)),
         "gs_rand" => gs::main_rand(arg(&args, 2, 0), arg(&args, 3, 100)),
+        "strains" => strains::main(arg(&args, 2, 0), arg(&args, 3, 100), arg(&args, 4, 40)),
         "grad" => grad::main(arg(&args, 2, 0), arg(&args, 3, 100), arg(&args, 4, 40)),
         _ => {
             eprintln!("unknown subcommand {cmd:?}");
